@@ -476,6 +476,22 @@ def template_programs(rng):
     for nm in ('start', 'lab0', 'lab1', 'exit', 'main2', 'x1'):
         p = proc(True, [('val', 'q')], [], iff(bi('<', var('q'), num(3)), ret(num(10)), ret(num(20))))
         out.append(('name:%s' % nm, std_program(seq([exit_(bi('+', call(nm, [num(1)]), call(nm, [num(5)])))]), {nm: p})))
+    # the same, in minimal programs (no library): the user's name meets the compiler's first generated labels
+    for nm in ('start', 'lab0', 'lab1', 'lab2', 'lab3', 'lab4', 'exit', 'main0'):
+        for order in (0, 1):
+            p = proc(True, [('val', 'q')], [], iff(bi('<', var('q'), num(3)), ret(num(10)), ret(num(20))))
+            m = proc(False, [], ['i'], seq([ass(var('i'), num(0)), whl(bi('<', var('i'), num(2)), ass(var('i'), bi('+', var('i'), num(1)))),
+                                            iff(bi('=', call(nm, [num(1)]), num(10)), putc(num(89)), putc(num(78))), exit_(bi('+', call(nm, [var('i')]), call(nm, [num(5)])))]))
+            out.append(('barename:%s:%d' % (nm, order), program([], {}, {nm: p, 'main': m}, {}, {}, [nm, 'main'] if order == 0 else ['main', nm])))
+    # programs without any global: the start-up code and exit stub work at the very top of memory
+    out.append(('bare:skip', program([], {}, {'main': proc(False, [], [], skip())}, {}, {}, ['main'])))
+    out.append(('bare:exit', program([], {}, {'main': proc(False, [], [], exit_(num(9)))}, {}, {}, ['main'])))
+    out.append(('bare:putc', program([], {}, {'main': proc(False, [], [], seq([putc(num(72)), putc(num(73), 256)]))}, {}, {}, ['main'])))
+    out.append(('bare:locals', program([], {}, {'main': proc(False, [], ['u', 'w'], seq([ass(var('u'), num(3)), ass(var('w'), bi('+', var('u'), var('u'))), putc(var('w'))]))}, {}, {}, ['main'])))
+    f1 = proc(True, [('val', 'p')], ['t'], seq([ass(var('t'), bi('+', var('p'), num(1))), ret(var('t'))]))
+    out.append(('bare:call', program([], {}, {'f1': f1, 'main': proc(False, [], [], putc(call('f1', [num(64)])))}, {}, {}, ['f1', 'main'])))
+    out.append(('bare:onevar', program(['g'], {}, {'main': proc(False, [], [], seq([ass(var('g'), num(5)), putc(var('g'))]))}, {}, {}, ['main'])))
+    out.append(('bare:onearr', program([], {'z': 1}, {'main': proc(False, [], [], seq([ass(idx('z', num(0)), num(5)), putc(idx('z', num(0)))]))}, {}, {}, ['main'])))
     # local val abbreviations and locals shadowing globals
     lv = proc(True, [('val', 'p')], ['x'], seq([ass(var('x'), bi('+', var('p'), var('W'))), ret(bi('+', var('x'), var('V5')))]), {'W': bi('+', num(1), num(65536))})
     out.append(('scope:localval', std_program(seq(init_stmts(rng) + [putc(call('lv', [num(1)])), exit_(var('x'))]), {'lv': lv})))
